@@ -89,6 +89,17 @@ def element_swaps(limit=None, rng=None):
 
 
 UNBALANCED_SPECIAL = [
+    # MCS-stage reactions whose GIVEN molecules carry a group the tautomer standardiser would rewrite (enol,
+    # hemiketal, gem-diol): only the imputed compound may be standardised, the given ones stay as they are
+    "OC=CCOC(C)=O>>OC=CCO",
+    "CC(=O)OCC=CO>>OCC=CO",
+    "CC(=O)OCC(O)=C>>OCC(O)=C",
+    "CC(O)(OC)CCOC(C)=O>>CC(O)(OC)CCO",
+    "OC(O)CCOC(C)=O>>OC(O)CCO",
+    "CC(=O)OCC.C=CO>>CCO.C=CO",
+    "CC(=O)OCC.CC(O)(O)C>>CCO.CC(O)(O)C",
+    "CCC(=O)OCC=C(C)O>>OCC=C(C)O",
+    "COC(=O)CC=CO>>OC(=O)CC=CO",
     # equal in every element, different in net charge (negative and positive, one or several units)
     "[I-].[I-]>>II",
     "C[S-].C[S-]>>CSSC",
@@ -276,3 +287,50 @@ def tied_completions(limit=40, rng=None):
     if rng is not None:
         rng.shuffle(out)
     return out[:limit]
+
+
+def dot_spanning(rng=None, limit=None):
+    """SMILES in which ring-closure labels span a dot: one molecule (or several) although the text has
+    more pieces.  Families: 1..3 closures between two pieces, one- and two-digit (%nn) labels and their
+    mixtures, closures distributed over several pieces, pieces that also carry a closed ring of their
+    own, spectators next to them.  Every string is checked with RDKit (parsable as a whole, at least
+    one piece not parsable alone) before it is returned."""
+    from rdkit import Chem, RDLogger
+    RDLogger.DisableLog("rdApp.*")
+    label_sets = [("1",), ("1", "2"), ("%10",), ("%10", "%11"), ("1", "%12"), ("3", "4", "5"), ("9", "%99")]
+    heads = ["C", "N", "[Si]", "c1ccccc1C", "C(C)", "OC(=O)C"]
+    out = []
+    for labs in label_sets:
+        for h in heads:
+            if len(labs) == 3 and h in ("N", "OC(=O)C", "C(C)", "c1ccccc1C"):
+                continue
+            a = h + "".join(labs) + "CC" if not h.endswith(")") else "C" + "".join(labs) + "(C)C"
+            # all labels closed on one chain piece, one label per atom
+            b = "".join("C" + l for l in labs) + "C"
+            out.append(a + "." + b)
+            out.append(b + "." + a)
+            # labels closed on separate pieces
+            if len(labs) >= 2:
+                out.append(a + "." + ".".join("C" + l + "O" for l in labs))
+            # both ends carry all labels on one atom (a multiple bond is not expressible: use two atoms)
+            out.append(a + "." + b + ".[Na+].[Cl-]")
+            out.append("O." + a + "." + b)
+            # a piece with its own closed ring as well
+            out.append("C1CC1" + h + "".join(labs[:1]) + "." + "C" + labs[0] + "CC")
+    # the same label reused after it was closed across a dot
+    out += ["C1.C1C1.C1", "C1CC.C1CC1.C1", "C12CC.C1CC2", "C%10CC.C%10", "C12.C12", "N1.C1C2.O2", "C1C2.C1.C2",
+            "C%10%11.C%10.C%11", "C1(C2).C1.C2C", "[CH2]1C.[CH2]1C", "C1.[Na+].C1", "C1.O.C1.O"]
+    good = []
+    seen = set()
+    for s in out:
+        if s in seen:
+            continue
+        seen.add(s)
+        if Chem.MolFromSmiles(s) is None:
+            continue
+        if all(Chem.MolFromSmiles(p) is not None for p in s.split(".")):
+            continue
+        good.append(s)
+    if rng is not None:
+        rng.shuffle(good)
+    return good[:limit] if limit else good
